@@ -246,7 +246,7 @@ def x_eval_module_expr(self, st, node, mod, ci=None):
     return KeyError
 
 
-def x_module_table(self, st, node, mod, _depth=0):
+def x_module_table(self, st, node, mod, _depth=0, ci=None):
     """A module-level tuple/list/dict display whose members are constants or NAMES of classes / functions / other such
     tables of that module (dispatch tables): evaluated member by member.  KeyError when it is anything else."""
     if _depth > 4:
@@ -254,7 +254,7 @@ def x_module_table(self, st, node, mod, _depth=0):
     if isinstance(node, (ast.Tuple, ast.List)):
         out = []
         for e in node.elts:
-            v = x_module_table(self, st, e, mod, _depth + 1)
+            v = x_module_table(self, st, e, mod, _depth + 1, ci)
             if v is KeyError:
                 return KeyError
             out.append(v)
@@ -264,7 +264,7 @@ def x_module_table(self, st, node, mod, _depth=0):
         for k, v in zip(node.keys, node.values):
             if k is None:
                 return KeyError
-            kk, vv = x_module_table(self, st, k, mod, _depth + 1), x_module_table(self, st, v, mod, _depth + 1)
+            kk, vv = x_module_table(self, st, k, mod, _depth + 1, ci), x_module_table(self, st, v, mod, _depth + 1, ci)
             if kk is KeyError or vv is KeyError:
                 return KeyError
             items.append((kk, vv))
@@ -274,6 +274,8 @@ def x_module_table(self, st, node, mod, _depth=0):
         if isinstance(rb, ClassInfo) and rb.is_enum and node.attr in rb.class_consts and not node.attr.startswith("_"):
             a2 = _enum_canonical(rb, node.attr)
             return EnumVal(rb.name, a2, rb.enum_members.get(a2))        # Status.passed in a table
+    if ci is not None and isinstance(node, ast.Name) and node.id in ci.methods:
+        return FuncVal(ci.methods[node.id])         # a class-level table naming functions of the class body
     if isinstance(node, (ast.Name, ast.Attribute)):
         r = self.ix.resolve_expr(mod, node)
         if isinstance(r, (ClassInfo, FuncInfo)):
@@ -716,6 +718,26 @@ def x_binop(self, st, op, a, b, node):
             return a // b
         except ZeroDivisionError:
             pass
+    if isinstance(op, (ast.LShift, ast.RShift, ast.BitOr, ast.BitAnd, ast.BitXor, ast.Mod, ast.Pow)) and all(
+            isinstance(x, int) and not isinstance(x, bool) for x in (a, b)) and getattr(self, "int_sat", 2) > 2:
+        # exact integers (constant mode): the bit operations and % / ** of small operands
+        try:
+            if isinstance(op, ast.LShift) and 0 <= b <= 64:
+                return a << b
+            if isinstance(op, ast.RShift) and 0 <= b <= 64:
+                return a >> b
+            if isinstance(op, ast.BitOr):
+                return a | b
+            if isinstance(op, ast.BitAnd):
+                return a & b
+            if isinstance(op, ast.BitXor):
+                return a ^ b
+            if isinstance(op, ast.Mod) and b != 0:
+                return a % b
+            if isinstance(op, ast.Pow) and 0 <= b <= 64 and abs(a) <= 1 << 16:
+                return a ** b
+        except (ZeroDivisionError, OverflowError, ValueError):
+            pass
     inp = any(isinstance(x, Top) and x.input for x in (a, b)) and not any(
         isinstance(x, Top) and not x.input for x in (a, b))
     return Top("binop:%s" % type(op).__name__, inp)
@@ -1140,7 +1162,7 @@ def get_attr(self, st, base, attr, node, default=KeyError):
                     rv = _abscall.fold_regex_const(self, lc[1], lc[0].module)
                     if rv is not KeyError:
                         return [(st, "val", rv)]
-                    rv = x_module_table(self, st, lc[1], lc[0].module)       # class-level dispatch table
+                    rv = x_module_table(self, st, lc[1], lc[0].module, ci=lc[0])       # class-level dispatch table
                     if rv is not KeyError:
                         return [(st, "val", rv)]
                     rv = x_eval_module_expr(self, st, lc[1], lc[0].module, ci=lc[0])
@@ -1252,7 +1274,7 @@ def get_attr(self, st, base, attr, node, default=KeyError):
                     rv = _abscall.fold_regex_const(self, lc[1], lc[0].module)
                     if rv is not KeyError:
                         return [(st, "val", rv)]
-                    rv = x_module_table(self, st, lc[1], lc[0].module)       # class-level dispatch table
+                    rv = x_module_table(self, st, lc[1], lc[0].module, ci=lc[0])       # class-level dispatch table
                     if rv is not KeyError:
                         return [(st, "val", rv)]
                     rv = x_eval_module_expr(self, st, lc[1], lc[0].module, ci=lc[0])
